@@ -206,10 +206,13 @@ def run_case(case, ref, timeout=240):
         if use_strace and not clilib.strace_available():
             use_strace = False
             bump("strace_unavailable")
+        run_cwd = os.path.join(s.root, case["cwd_sub"]) if case.get("cwd_sub") else s.root
+        os.makedirs(run_cwd, exist_ok=True)
+        before = clilib.snapshot(s.base)
         if feed.startswith("chunk:"):
-            run = run_chunked(args, s.root, s.env(), inp, int(feed.split(":")[1]), timeout)
+            run = run_chunked(args, run_cwd, s.env(), inp, int(feed.split(":")[1]), timeout)
         else:
-            run = clilib.run_cli(args, s.root, s.env(), stdin=inp, strace=use_strace, timeout=timeout)
+            run = clilib.run_cli(args, run_cwd, s.env(), stdin=inp, strace=use_strace, timeout=timeout)
         after = clilib.snapshot(s.base)
         if run.timed_out:
             res["inconclusive"] += 1
@@ -360,6 +363,12 @@ def placements():
     P.append(("cfg:config-path-beats-stdin-filepath", {"src/stylua.toml": toml_for(sp(3)), "alt/my.toml": toml_for(sp(7))}, ["--config-path", "alt/my.toml", "--stdin-filepath", "src/a.lua"], sp(7)))
     P.append(("cfg:xdg-with-search-parents", {"XDG/stylua.toml": toml_for(sp(6))}, ["--search-parent-directories"], sp(6)))
     P.append(("cfg:xdg-without-search-parents", {"XDG/stylua.toml": toml_for(sp(6))}, [], {}))
+    # configuration above the working directory (the 4th element may carry the working directory):
+    # found with --search-parent-directories, for stdin with and without --stdin-filepath; not found without the flag
+    P.append(("cfg:above-cwd-with-search-parents", {"stylua.toml": toml_for(sp(7)), "proj/src/x.lua": "return 1\n"}, ["--search-parent-directories"], sp(7), "proj/src"))
+    P.append(("cfg:above-cwd-with-search-parents+filepath", {"stylua.toml": toml_for(sp(7)), "proj/src/x.lua": "return 1\n"}, ["-s", "--stdin-filepath", "a.lua"], sp(7), "proj/src"))
+    P.append(("cfg:above-cwd-without-search-parents", {"stylua.toml": toml_for(sp(7)), "proj/src/x.lua": "return 1\n"}, [], {}, "proj/src"))
+    P.append(("cfg:above-cwd-nearest-wins", {"stylua.toml": toml_for(sp(7)), "proj/.stylua.toml": toml_for(sp(2)), "proj/src/x.lua": "return 1\n"}, ["-s"], sp(2), "proj/src"))
     P.append(("cfg:other-keys", {"stylua.toml": 'column_width = 50\nquote_style = "ForceSingle"\ncall_parentheses = "None"\n'}, [],
               {"column_width": 50, "quote_style": "ForceSingle", "call_parentheses": "None"}))
     return P
@@ -439,11 +448,13 @@ def build_workload(tier, seed, ref):
             cases.append(mk("grid:range", b, range=rg, src=n))
         cases.append(mk("grid:chunk", b, feed="chunk:5", src=n, cfg={"column_width": 80}))
     # ---- pinned D: config placement
-    for fam, tree, args, tcfg in placements():
+    for pl in placements():
+        fam, tree, args, tcfg = pl[:4]
+        extra = {"cwd_sub": pl[4]} if len(pl) > 4 else {}
         for n, b in grid_inputs[:: (3 if quick else 1)]:
-            cases.append(mk(fam, b, tree=tree, args=args, tree_cfg=tcfg, src=n))
-            cases.append(mk(fam + "+cli-width", b, tree=tree, args=args, tree_cfg=tcfg, cfg={"indent_width": 2}, src=n))
-        cases.append(mk(fam + ":check", grid_inputs[-2][1], tree=tree, args=args, tree_cfg=tcfg, mode="check:unified"))
+            cases.append(mk(fam, b, tree=tree, args=args, tree_cfg=tcfg, src=n, **extra))
+            cases.append(mk(fam + "+cli-width", b, tree=tree, args=args, tree_cfg=tcfg, cfg={"indent_width": 2}, src=n, **extra))
+        cases.append(mk(fam + ":check", grid_inputs[-2][1], tree=tree, args=args, tree_cfg=tcfg, mode="check:unified", **extra))
     # ---- pinned E: ignored paths
     itree, icases = ignore_cases()
     for fam, args, skip in icases:
@@ -457,18 +468,25 @@ def build_workload(tier, seed, ref):
     # ---- pinned E2: a second .styluaignore next to the named path, besides the one in cwd. A path is
     # ignored when either file excludes it (gitignore semantics: the nearer file adds patterns, it
     # does not switch the outer one off).
-    ntree = {".styluaignore": "dist/\nlib/\n", "vendor/.styluaignore": "generated.lua\n*.min.lua\n", "lib/.styluaignore": "# nothing ignored here\n",
-             "vendor/x.lua": "return 1\n", "lib/m.lua": "return 1\n"}
+    ntree = {".styluaignore": "dist/\nlib/\n", "vendor/.styluaignore": "generated.lua\n*.min.lua\n/anchored.lua\nsub/*.lua\n", "lib/.styluaignore": "# nothing ignored here\n",
+             "vendor/x.lua": "return 1\n", "vendor/sub/y.lua": "return 1\n", "lib/m.lua": "return 1\n"}
     nested = [("ign2:nearer-file-excludes", "vendor/generated.lua", True, None),
               ("ign2:nearer-file-pattern", "vendor/a.min.lua", True, None),
               ("ign2:intermediate-file-pattern", "vendor/deep/a.min.lua", True, "intermediate-dir-styluaignore-not-consulted"),
               ("ign2:nearer-file-present-not-matching", "vendor/other.lua", False, None),
               ("ign2:cwd-file-excludes-dir-without-own-file", "dist/a.lua", True, None),
               ("ign2:neither-excludes", "src/a.lua", False, None),
+              # patterns with a slash are relative to the directory of the file that holds them
+              ("ign2:nearer-file-anchored", "vendor/anchored.lua", True, None),
+              ("ign2:nearer-file-anchored-other-name", "vendor/unanchored.lua", False, None),
+              ("ign2:parent-file-dir-pattern-with-search-parents", "-s:vendor/sub/a.lua", True, None),
               ("ign2:cwd-file-excludes-dir-with-own-file", "lib/m.lua", True, "own-dir-styluaignore-shadows-cwd")]
     for fam, path, skip, tag in nested:
+        pre = []
+        if path.startswith("-s:"):
+            pre, path = ["--search-parent-directories"], path[3:]
         for n, b in grid_inputs[:: (6 if quick else 2)]:
-            kw = dict(tree=ntree, args=["--respect-ignores", "--stdin-filepath", path], expect_skip=skip, src=n)
+            kw = dict(tree=ntree, args=pre + ["--respect-ignores", "--stdin-filepath", path], expect_skip=skip, src=n)
             if tag:
                 kw["sig_tag"] = tag
             cases.append(mk(fam, b, **kw))
@@ -509,8 +527,11 @@ def build_workload(tier, seed, ref):
         if rng.chance(1, 8):
             kw["range"] = [rng.below(len(b) + 1), None if rng.chance(1, 2) else rng.below(len(b) + 20)]
         if rng.chance(1, 5):
-            fam, tree, args, tcfg = rng.pick(P)
+            pl = rng.pick(P)
+            fam, tree, args, tcfg = pl[:4]
             kw.update(tree=tree, args=list(args), tree_cfg=tcfg)
+            if len(pl) > 4:
+                kw["cwd_sub"] = pl[4]
         elif rng.chance(1, 6):
             fam, args, skip = rng.pick(icases)
             kw.update(tree=itree, args=list(args), expect_skip=skip)
